@@ -369,6 +369,8 @@ class Interp:
                     env[ka.arg] = self.expr(kd, {})
                 else:
                     raise AnalysisError(f"absint: missing keyword-only argument {ka.arg} for {fnode.name}")
+            # names the function binds somewhere: reading one before its binding is Python's UnboundLocalError, not a gap of the model
+            env["__locals__"] = _local_names(fnode)
             if fnode.args.kwarg:
                 named = set(params) | {a.arg for a in fnode.args.kwonlyargs}
                 env[fnode.args.kwarg.arg] = {k_: v_ for k_, v_ in (kwargs or {}).items() if k_ not in named}
@@ -817,6 +819,8 @@ class Interp:
                 return _ExcCls(e.id)
             if e.id == "suppress":
                 return _PyCall(lambda *kinds: _Suppress(kinds))
+            if e.id in (env.get("__locals__") or ()):
+                raise Raised(f"UnboundLocalError: cannot access local variable '{e.id}' where it is not associated with a value")
             raise AnalysisError(f"absint: unknown name {e.id}")
         if isinstance(e, ast.Attribute):
             d = dotted(e)
@@ -1501,6 +1505,40 @@ class _Cls:
 
     def __repr__(self):
         return f"<class {self.name}>"
+
+
+_LOCALS_CACHE: dict = {}
+
+
+def _local_names(fnode) -> frozenset:
+    """Names bound by assignment / for / with / import / except-as in the function's own scope (nested functions and comprehensions
+    excluded; names declared global / nonlocal excluded)."""
+    k = id(fnode)
+    if k in _LOCALS_CACHE:
+        return _LOCALS_CACHE[k][1]
+    out, outer = set(), set()
+
+    def visit(n):
+        for c in ast.iter_child_nodes(n):
+            if isinstance(c, (ast.FunctionDef, ast.AsyncFunctionDef, ast.ClassDef)):
+                out.add(c.name)
+                continue
+            if isinstance(c, (ast.Lambda, ast.ListComp, ast.SetComp, ast.DictComp, ast.GeneratorExp)):
+                continue
+            if isinstance(c, (ast.Global, ast.Nonlocal)):
+                outer.update(c.names)
+            if isinstance(c, ast.Name) and isinstance(c.ctx, ast.Store):
+                out.add(c.id)
+            if isinstance(c, ast.ExceptHandler) and c.name:
+                out.add(c.name)
+            if isinstance(c, ast.alias):
+                out.add((c.asname or c.name).split(".")[0])
+            visit(c)
+    for st in fnode.body if isinstance(fnode.body, list) else []:
+        visit(ast.Module(body=[st], type_ignores=[]))
+    res_ = frozenset(out - outer)
+    _LOCALS_CACHE[k] = (fnode, res_)
+    return res_
 
 
 class _Bound:
